@@ -222,31 +222,82 @@ def fragment_facts(fx, cg, fn):
     if local_moof and local_off:
         b1, b2 = local_moof[0], local_off[0]
         facts["lockstep"] = (body.dominates(b1, b2) and b1 in body.pdom().get(b2, ()) or b2 in body.pdom().get(b1, ())) or (body.dominates(b2, b1) and b2 in body.pdom().get(b1, ()) or b1 in body.pdom().get(b2, ()))
-    # attach
-    f_tr = f_off = None
-    for b, t in pushes:
-        l, proj = root_local(body, t["args"][0])
-        fields = [x["f"] for x in proj if isinstance(x, dict) and "f" in x]
-        if fields[-1:] == ["trafs"]:
-            f_tr = (b, t)
-        if fields[-1:] == ["moof_offsets"]:
-            f_off = (b, t)
-    if f_tr and f_off and local_moof and local_off:
-        b1, b2 = f_tr[0], f_off[0]
-        straight = (body.dominates(b1, b2) and b2 in body.pdom().get(b1, ())) or (body.dominates(b2, b1) and b1 in body.pdom().get(b2, ()))
-        v1, v2 = op_place(f_tr[1]["args"][1]), op_place(f_off[1]["args"][1])
-        fed = v1 is not None and v2 is not None and c07.derives_from(body, v1["l"], local_moof[2]) and c07.derives_from(body, v2["l"], local_off[2])
-        facts["attach"] = bool(straight and fed)
-    for b, t in body.calls():
-        p_ = strip_generics(t["callee"].get("path") or "")
-        if p_.endswith("HashMap::get_mut") and len(t["args"]) == 2 and "tfhd.track_id" in body.canon_op(t["args"][1]):
-            facts["lookup"] = True
-    for b in body.reach:
-        for st_ in body.stmts(b):
-            if st_["k"] == "assign" and st_["rv"]["k"] == "agg" and st_["rv"].get("variant") == "TrakNotFound":
-                facts["unknown"] = True
-            if st_["k"] == "assign" and st_["place"]["p"] and isinstance(st_["place"]["p"][-1], dict) and st_["place"]["p"][-1].get("f") == "default_sample_duration" and short(st_["place"]["p"][-1].get("adt") or "") == "Mp4Track" and st_["rv"]["k"] == "use":
-                facts["default"] = sorted(value_fields(fx, cg, body, st_["rv"]["a"]))
+    # attach / lookup / unknown / default: in the open function itself or in a local helper it calls (same source file,
+    # not a box decoder), with the helper's parameters mapped back to the arguments at the call site
+    def helpers_of(fid0):
+        out, seen, stack = [], set(), [fid0]
+        f0 = (fn.get("span") or {}).get("file")
+        while stack:
+            f = stack.pop()
+            hb = body_of(fx.fns[f])
+            if hb is None:
+                continue
+            for cb, ct in hb.calls():
+                g = callee_path(ct["callee"])
+                gf = fx.fns.get(g)
+                if gf is None or g in seen or g == fid0 or (gf.get("span") or {}).get("file") != f0 or gf["kind"] == "Closure":
+                    continue
+                seen.add(g)
+                out.append(g)
+                stack.append(g)
+        return out
+
+    def pushes_in(hbody):
+        tr = off = None
+        for pb, pt in hbody.calls():
+            if strip_generics(pt["callee"].get("path") or "") == "alloc::vec::Vec::push" and len(pt["args"]) == 2:
+                l_, proj_ = root_local(hbody, pt["args"][0])
+                flds = [x for x in proj_ if isinstance(x, dict) and "f" in x]
+                if flds and flds[-1]["f"] == "trafs" and short(flds[-1].get("adt") or "") == "Mp4Track":
+                    tr = (pb, pt)
+                if flds and flds[-1]["f"] == "moof_offsets" and short(flds[-1].get("adt") or "") == "Mp4Track":
+                    off = (pb, pt)
+        return tr, off
+
+    def straight(hbody, b1, b2):
+        return (hbody.dominates(b1, b2) and b2 in hbody.pdom().get(b1, ())) or (hbody.dominates(b2, b1) and b1 in hbody.pdom().get(b2, ()))
+
+    bodies = [(fn["id"], body)] + [(h, body_of(fx.fns[h])) for h in helpers_of(fn["id"]) if body_of(fx.fns[h]) is not None]
+    for hid, hbody in bodies:
+        f_tr, f_off = pushes_in(hbody)
+        if f_tr and f_off and local_moof and local_off and straight(hbody, f_tr[0], f_off[0]):
+            v1, v2 = op_place(f_tr[1]["args"][1]), op_place(f_off[1]["args"][1])
+            if v1 is None or v2 is None:
+                continue
+            if hid == fn["id"]:
+                fed = c07.derives_from(hbody, v1["l"], local_moof[2]) and c07.derives_from(hbody, v2["l"], local_off[2])
+            else:
+                # which parameters of the helper feed the two pushes, and what the open function passes there
+                p1 = [pi for pi in range(1, hbody.argc + 1) if c07.derives_from(hbody, v1["l"], pi)]
+                p2 = [pi for pi in range(1, hbody.argc + 1) if c07.derives_from(hbody, v2["l"], pi)]
+                fed = False
+                for cb, ct in body.calls():
+                    if callee_path(ct["callee"]) != hid:
+                        continue
+                    a1 = [op_place(ct["args"][pi - 1]) for pi in p1 if pi - 1 < len(ct["args"])]
+                    a2 = [op_place(ct["args"][pi - 1]) for pi in p2 if pi - 1 < len(ct["args"])]
+                    if any(x is not None and c07.derives_from(body, x["l"], local_moof[2]) for x in a1) and any(x is not None and c07.derives_from(body, x["l"], local_off[2]) for x in a2):
+                        fed = True
+            facts["attach"] = facts["attach"] or bool(fed)
+        for cb, ct in hbody.calls():
+            p_ = strip_generics(ct["callee"].get("path") or "")
+            if p_.endswith("HashMap::get_mut") and len(ct["args"]) == 2 and "tfhd.track_id" in hbody.canon_op(ct["args"][1]):
+                facts["lookup"] = True
+        for bb in hbody.reach:
+            for st_ in hbody.stmts(bb):
+                if st_["k"] == "assign" and st_["rv"]["k"] == "agg" and st_["rv"].get("variant") == "TrakNotFound":
+                    facts["unknown"] = True
+                if st_["k"] == "assign" and st_["place"]["p"] and isinstance(st_["place"]["p"][-1], dict) and st_["place"]["p"][-1].get("f") == "default_sample_duration" and short(st_["place"]["p"][-1].get("adt") or "") == "Mp4Track" and st_["rv"]["k"] == "use":
+                    srcs = set(value_fields(fx, cg, hbody, st_["rv"]["a"]))
+                    if hid != fn["id"]:
+                        pl_ = op_place(st_["rv"]["a"])
+                        ps = [pi for pi in range(1, hbody.argc + 1) if pl_ is not None and c07.derives_from(hbody, pl_["l"], pi)]
+                        for cb, ct in body.calls():
+                            if callee_path(ct["callee"]) == hid:
+                                for pi in ps:
+                                    if pi - 1 < len(ct["args"]):
+                                        srcs |= set(value_fields(fx, cg, body, ct["args"][pi - 1]))
+                    facts["default"] = sorted(srcs)
     return facts
 
 
@@ -325,10 +376,17 @@ def run(fx, chk, tier):
     if chk.anchor("R-COUNT", "Mp4Track::sample_count", fcn):
         body = body_of(fcn)
         adds = []
+
+        def reads_run_count(op):
+            return "trun.sample_count" in body.op_str(op) or "TrunBox.sample_count" in body.canon_op(op) or ".sample_count" in body.canon_op(op) and "trun" in body.canon_op(op).lower()
         for b, t in body.calls():
-            p = t["callee"].get("path") or ""
-            if p.endswith("checked_add") and "trun.sample_count" in body.op_str(t["args"][1]):
+            p = (t["callee"].get("path") or "").split("::")[-1]
+            if p in ("checked_add", "saturating_add", "wrapping_add", "add", "add_assign") and any(reads_run_count(a) for a in t["args"]):
                 adds.append(b)
+        for b in range(body.n):
+            for st_ in body.stmts(b):
+                if st_["k"] == "assign" and st_["rv"]["k"] in ("bin", "checked") and st_["rv"].get("op") in ("Add", "AddWithOverflow", "AddUnchecked") and any(reads_run_count(st_["rv"][x]) for x in ("a", "b")):
+                    adds.append(b)
         loops = [l for l in body.loops() if adds and adds[0] in l["body"]]
         ok = len(adds) == 1 and bool(loops)
         if ok:
@@ -383,7 +441,20 @@ def run(fx, chk, tier):
     rclo = cg.closure(reader_entries(fx))
     nfresh = 0
     for nm, fn_ in (("read_header", rh), ("read_fragment_header", rf)):
-        sub = [fn_["id"]] + [k for k in fx.fns if k.startswith(fn_["id"] + "::{closure")]
+        f0_ = (fn_.get("span") or {}).get("file")
+        sub, stack_ = [], [fn_["id"]]
+        while stack_:
+            cur_ = stack_.pop()
+            if cur_ in sub:
+                continue
+            sub.append(cur_)
+            stack_.extend(k for k in fx.fns if k.startswith(cur_ + "::{closure"))
+            cb_ = body_of(fx.fns[cur_])
+            if cb_ is not None:
+                for bb, t in cb_.calls():
+                    g_ = callee_path(t["callee"])
+                    if g_ in fx.fns and (fx.fns[g_].get("span") or {}).get("file") == f0_:
+                        stack_.append(g_)
         built = False
         for fid in sub:
             b_ = body_of(fx.fns[fid])
@@ -404,7 +475,12 @@ def run(fx, chk, tier):
         if b_ is None or fx.fns[fid].get("derived"):
             continue
         for bb, t in b_.calls():
-            if strip_generics(t["callee"].get("path") or "") == "core::clone::Clone::clone" and "Mp4Track" in (t["callee"].get("full") or ""):
+            full_ = t["callee"].get("full") or ""
+            cloned = full_.split(" as core::clone::Clone")[0].lstrip("<")
+            # the type being cloned, with references to tracks removed (cloning an `Option<&Mp4Track>` copies a pointer)
+            import re as _re
+            owned = _re.sub(r"&(?:'[\w_]+ )?(?:mut )?(?:track::)?Mp4Track", "", cloned)
+            if strip_generics(t["callee"].get("path") or "") == "core::clone::Clone::clone" and "Mp4Track" in owned:
                 chk.bad("R-FRESH", "%s|clone" % short(fid), "a track (or the track table) is cloned: fragments already attached to the source reader would be carried into the new one and numbered before the segment's own runs", site_of(fx.fns[fid], t.get("line")))
     chk.floor("R-FRESH", "open functions checked", nfresh, 2)
     # ---------------- R-UNITS
